@@ -19,6 +19,19 @@ Decided:
          nothing switches autoescaping off; the template names rendered are the ones registered;
   R09.e  the JSON body carries code/message/detail/error_type: to_json encodes self.to_dict(), the base
          to_dict has the four keys, overrides extend the super() result.
+Also decided (necessary conditions found clause by clause):
+  R09.a  the handler's slots not_found_type / method_not_allowed_type / server_error_type hold error types with status 404 / 405 /
+         500 in ErrorHandler and every subclass; every uncaught_to_response answers with an instance of a server_error_type slot;
+         a constructor of an error type hands its **kwargs (none of the keys HTTPException.__init__ reads taken out or overwritten),
+         *args and detail to the next constructor, once, on every path; nothing writes code / message / detail / error_type on a class;
+  R09.b  best_match(table, default): the default is None or a plain-text type of the table; the charset of the Content-Type is
+         self.charset; the format table is never modified (stores, mutating methods, global re-binding, in any module that sees it);
+         an adapt() of a subclass defers to the inherited one or obeys the same pairing rule; every render_error of the ErrorHandler
+         family negotiates like the base one;
+  R09.c  to_html / to_xml are the methods each class of the family *resolves* to (mixins outside the family included); a
+         to_escaped_dict() of a subclass obeys the same rule (or extends the inherited mapping with escaped values); placeholders of
+         the constant templates never stand in a tag outside quotes; the folded template of to_xml, placeholders replaced by text,
+         is one well-formed XML element (xml.etree on a constant of the source).
 Declined: well-formedness of produced bytes, Accept negotiation inside werkzeug, JSON parseability.
 
 Constructs are located by role: values are followed through single-assignment locals (``local_value``), through
@@ -428,80 +441,80 @@ def check_template_constancy(rep, rule):
     base = err.cls('HTTPException')
     fam = [base] + repo.subclasses(base, [err])
     n = 0
-    for c in fam:
-        for name, m in sorted(c.methods.items()):
-            if not name.startswith('to_') or name in ('to_dict', 'to_escaped_dict'):
-                continue
-            params = set(_param_names(m))
+    for m, servers in family_methods(repo, fam):
+        c, name = (m.cls if isinstance(m.cls, ClassInfo) else servers[0]), m.name
+        if not name.startswith('to_') or name in ('to_dict', 'to_escaped_dict'):
+            continue
+        params = set(_param_names(m))
 
-            def const_value(v):
-                return isinstance(v, str) or (isinstance(v, (list, tuple)) and all(isinstance(x, str) for x in v))
+        def const_value(v):
+            return isinstance(v, str) or (isinstance(v, (list, tuple)) and all(isinstance(x, str) for x in v))
 
-            def const_expr(e, depth=0):
-                """is this string-valued (or list-of-strings-valued) expression built from constants only?  Either by
-                its structure (literals, locals assembled from literals) or because it folds from literals and module
-                constants (a template generated from a constant table of field names, ...)."""
-                if depth > 8:
+        def const_expr(e, depth=0):
+            """is this string-valued (or list-of-strings-valued) expression built from constants only?  Either by
+            its structure (literals, locals assembled from literals) or because it folds from literals and module
+            constants (a template generated from a constant table of field names, ...)."""
+            if depth > 8:
+                return False
+            return structurally_const(e, depth) or \
+                (not isinstance(e, (ast.Constant, ast.Name)) and is_function_constant(repo, m, e, const_value))
+
+        def structurally_const(e, depth):
+            if isinstance(e, ast.Constant):
+                return isinstance(e.value, str)
+            if isinstance(e, ast.JoinedStr):
+                return all(isinstance(v, ast.Constant) for v in e.values)
+            if isinstance(e, ast.BinOp) and isinstance(e.op, ast.Add):
+                return const_expr(e.left, depth + 1) and const_expr(e.right, depth + 1)
+            if isinstance(e, ast.IfExp):
+                return const_expr(e.body, depth + 1) and const_expr(e.orelse, depth + 1)
+            if isinstance(e, (ast.List, ast.Tuple)):
+                return all(const_expr(x, depth + 1) for x in e.elts)
+            if isinstance(e, ast.Call) and isinstance(e.func, ast.Attribute) and e.func.attr == 'join' and len(e.args) == 1 \
+                    and not e.keywords:
+                return const_expr(e.func.value, depth + 1) and const_expr(e.args[0], depth + 1)
+            if isinstance(e, ast.Call) and isinstance(e.func, ast.Name) and e.func.id in ('list', 'tuple') and not e.keywords \
+                    and len(e.args) <= 1 and e.func.id not in params and not _name_stores(m, e.func.id):
+                # a fresh copy of a constant sequence (``lines = list(_HEAD_LINES)``)
+                return not e.args or const_expr(e.args[0], depth + 1)
+            if isinstance(e, ast.Name):
+                if e.id in params:
                     return False
-                return structurally_const(e, depth) or \
-                    (not isinstance(e, (ast.Constant, ast.Name)) and is_function_constant(repo, m, e, const_value))
-
-            def structurally_const(e, depth):
-                if isinstance(e, ast.Constant):
-                    return isinstance(e.value, str)
-                if isinstance(e, ast.JoinedStr):
-                    return all(isinstance(v, ast.Constant) for v in e.values)
-                if isinstance(e, ast.BinOp) and isinstance(e.op, ast.Add):
-                    return const_expr(e.left, depth + 1) and const_expr(e.right, depth + 1)
-                if isinstance(e, ast.IfExp):
-                    return const_expr(e.body, depth + 1) and const_expr(e.orelse, depth + 1)
-                if isinstance(e, (ast.List, ast.Tuple)):
-                    return all(const_expr(x, depth + 1) for x in e.elts)
-                if isinstance(e, ast.Call) and isinstance(e.func, ast.Attribute) and e.func.attr == 'join' and len(e.args) == 1 \
-                        and not e.keywords:
-                    return const_expr(e.func.value, depth + 1) and const_expr(e.args[0], depth + 1)
-                if isinstance(e, ast.Call) and isinstance(e.func, ast.Name) and e.func.id in ('list', 'tuple') and not e.keywords \
-                        and len(e.args) <= 1 and e.func.id not in params and not _name_stores(m, e.func.id):
-                    # a fresh copy of a constant sequence (``lines = list(_HEAD_LINES)``)
-                    return not e.args or const_expr(e.args[0], depth + 1)
-                if isinstance(e, ast.Name):
-                    if e.id in params:
+                srcs = [s.value for s in stmts_of(m.node) if isinstance(s, ast.Assign) and any(norm(t) == e.id for t in s.targets)]
+                adds = [c_ for c_ in walk_body(m.node) if isinstance(c_, ast.Call) and isinstance(c_.func, ast.Attribute)
+                        and norm(c_.func.value) == e.id and c_.func.attr in ('append', 'extend', 'insert')]
+                augs = [s.value for s in stmts_of(m.node) if isinstance(s, ast.AugAssign) and norm(s.target) == e.id]
+                if len(srcs) + len(augs) != len(_name_stores(m, e.id)):
+                    return False    # bound in some other way (loop variable, tuple unpacking, ...)
+                if not srcs:
+                    if augs or adds:
                         return False
-                    srcs = [s.value for s in stmts_of(m.node) if isinstance(s, ast.Assign) and any(norm(t) == e.id for t in s.targets)]
-                    adds = [c_ for c_ in walk_body(m.node) if isinstance(c_, ast.Call) and isinstance(c_.func, ast.Attribute)
-                            and norm(c_.func.value) == e.id and c_.func.attr in ('append', 'extend', 'insert')]
-                    augs = [s.value for s in stmts_of(m.node) if isinstance(s, ast.AugAssign) and norm(s.target) == e.id]
-                    if len(srcs) + len(augs) != len(_name_stores(m, e.id)):
-                        return False    # bound in some other way (loop variable, tuple unpacking, ...)
-                    if not srcs:
-                        if augs or adds:
-                            return False
-                        try:
-                            return const_value(repo.fold(e, err))
-                        except Exception:
-                            return False
-                    return all(const_expr(v, depth + 1) for v in srcs + augs) and all(a.args and const_expr(a.args[-1], depth + 1) for a in adds)
-                if isinstance(e, (ast.Attribute, ast.Subscript)):
                     try:
-                        return const_value(repo.fold(e, err))
+                        return const_value(repo.fold(e, m.mod))
                     except Exception:
                         return False
-                return False
-            for node in walk_body(m.node):
-                tmpl = None
-                if isinstance(node, ast.Call) and isinstance(node.func, ast.Attribute) and node.func.attr in ('format', 'format_map'):
-                    tmpl = node.func.value
-                elif isinstance(node, ast.BinOp) and isinstance(node.op, ast.Mod) and \
-                        not (isinstance(node.left, ast.Constant) and not isinstance(node.left.value, str)):
-                    tmpl = node.left
-                if tmpl is None:
-                    continue
-                n += 1
-                ok = const_expr(tmpl)
-                rep.check(rule, fkey(m, 'template of ' + norm(node)[:60]), ok,
-                          'format template is made of constants only' if ok else
-                          '%s.%s formats a template that already contains interpolated data (%s): a "{" / "%%" in a detail or exception '
-                          'message raises inside the renderer and inside its default-rendering fallback' % (c.name, name, short(tmpl)), err, node)
+                return all(const_expr(v, depth + 1) for v in srcs + augs) and all(a.args and const_expr(a.args[-1], depth + 1) for a in adds)
+            if isinstance(e, (ast.Attribute, ast.Subscript)):
+                try:
+                    return const_value(repo.fold(e, m.mod))
+                except Exception:
+                    return False
+            return False
+        for node in walk_body(m.node):
+            tmpl = None
+            if isinstance(node, ast.Call) and isinstance(node.func, ast.Attribute) and node.func.attr in ('format', 'format_map'):
+                tmpl = node.func.value
+            elif isinstance(node, ast.BinOp) and isinstance(node.op, ast.Mod) and \
+                    not (isinstance(node.left, ast.Constant) and not isinstance(node.left.value, str)):
+                tmpl = node.left
+            if tmpl is None:
+                continue
+            n += 1
+            ok = const_expr(tmpl)
+            rep.check(rule, fkey(m, 'template of ' + norm(node)[:60]), ok,
+                      'format template is made of constants only' if ok else
+                      '%s.%s formats a template that already contains interpolated data (%s): a "{" / "%%" in a detail or exception '
+                      'message raises inside the renderer and inside its default-rendering fallback' % (c.name, name, short(tmpl)), m.mod, node)
     return n
 
 
@@ -604,17 +617,17 @@ def _is_fields_iter(fi, e, stmt):
     return norm(expand_expr(fi, e, stmt)) == 'self.to_dict().items()'
 
 
-def check_escaped_dict(rep, repo, err, base):
+def check_escaped_dict(rep, repo, err, base, ted=None):
     """Every value of the mapping to_escaped_dict() returns is '' or html_escape(x, True), and every field of to_dict()
     gets an entry -- whether the mapping is filled by a loop or built by a comprehension, with the per-field work
-    in place or in a helper."""
-    ted = base.methods['to_escaped_dict']
+    in place or in a helper.  ``ted``: the method to analyse (the base class' or an override in the family)."""
+    ted = base.methods['to_escaped_dict'] if ted is None else ted
     rets = returns_of(ted)
     if len(rets) != 1 or rets[0].value is None:
         raise AnalysisError('to_escaped_dict: a single returned mapping was not found')
     rv = rets[0].value
     sites = []      # (key node, function, leaf expression)
-    comp, rname = None, None
+    comp, rname, inherited = None, None, False
     if isinstance(rv, ast.Name):
         rname = rv.id
         inits = assigned_value(ted.node, rname)
@@ -623,6 +636,10 @@ def check_escaped_dict(rep, repo, err, base):
         init = inits[0][1]
         if isinstance(init, ast.DictComp):
             comp = init
+        elif ted is not base.methods['to_escaped_dict'] and isinstance(init, ast.Call) and isinstance(init.func, ast.Attribute) and \
+                init.func.attr == 'to_escaped_dict' and not init.args and not init.keywords and isinstance(ted.cls, ClassInfo) and \
+                ((isinstance(init.func.value, ast.Call) and norm(init.func.value.func) == 'super') or norm(init.func.value) in [norm(b) for b in ted.cls.node.bases]):
+            inherited = True        # an override that starts from the inherited (escaped, complete) mapping and adds to it
         elif not ((isinstance(init, ast.Dict) and not init.keys) or
                   (isinstance(init, ast.Call) and call_name(init) in ('dict', 'OrderedDict') and not init.args and not init.keywords)):
             raise AnalysisError('to_escaped_dict: construction of the returned mapping not recognised (%s)' % short(init, 60))
@@ -649,6 +666,11 @@ def check_escaped_dict(rep, repo, err, base):
             isinstance(tgt, ast.Tuple) and len(tgt.elts) == 2 and isinstance(tgt.elts[0], ast.Name) and norm(comp.key) == tgt.elts[0].id
         for f_, leaf in value_leaves(repo, ted, comp.value):
             sites.append((comp.value, f_, leaf))
+    elif inherited:
+        complete = True
+        if not sites:
+            rep.ok('R09.c', fkey(ted, 'inherited mapping'), 'returns the inherited escaped mapping unchanged', err, ted.node)
+            return
     else:
         if len(stores) < 1:
             raise AnalysisError('to_escaped_dict: stores into the result dict not found')
@@ -674,100 +696,262 @@ def check_escaped_dict(rep, repo, err, base):
               'to_escaped_dict can skip fields of to_dict()', err, ted.node)
 
 
-def check_markup_sinks(rep, repo, err, fam):
-    n_sinks = 0
+def family_methods(repo, fam):
+    """[(method, [classes of the family that use it])]: every method of the analysed tree a class of the family resolves
+    one of its attribute names to -- its own, an inherited one, or one defined in a mixin outside the family."""
+    out, index = [], {}
+    for c in fam:
+        for k in repo.mro(c):
+            if not isinstance(k, ClassInfo) or k.mod.external:
+                continue
+            for name, m in sorted(k.methods.items()):
+                if repo.find_method(c, name) is not m:
+                    continue        # overridden for this class
+                if id(m.node) not in index:
+                    index[id(m.node)] = len(out)
+                    out.append((m, []))
+                out[index[id(m.node)]][1].append(c)
+    return out
+
+
+def markup_methods(repo, fam):
+    """[(method, [classes of the family it serves])] for the to_html / to_xml serialisers of the family: the function
+    each class *resolves* the name to -- defined in the class, in a base class, or in a mixin outside the family --
+    so that a serialiser moved into a shared base is analysed for every class that inherits it."""
+    out = []
     for c in fam:
         for name in ('to_html', 'to_xml'):
-            m = c.methods.get(name)
-            if m is None:
+            m = repo.find_method(c, name)
+            if m is None or m.mod.external:
                 continue
-            n_sinks += 1
-            # (B) shipped template
-            rets = returns_of(m)
-            tmpl_rets = [r for r in rets if isinstance(expand_expr(m, r.value, r), ast.Call) and
-                         norm(expand_expr(m, r.value, r).func) == 'CONTEXTUAL_ENV.render']
-            if tmpl_rets and len(tmpl_rets) == len(rets):
-                names = [_template_name(repo, err, m, expand_expr(m, r.value, r)) for r in tmpl_rets]
-                rep.ok('R09.c', fkey(m), 'renders shipped template(s) %s (escaping: R09.d)' % names, err, m.node)
+            for entry in out:
+                if entry[0] is m:
+                    entry[1].append(c)
+                    break
+            else:
+                out.append((m, [c]))
+    return out
+
+
+def check_markup_sinks(rep, repo, err, fam):
+    sinks_seen = set()
+    for m, servers in markup_methods(repo, fam):
+        c, name = (m.cls if isinstance(m.cls, ClassInfo) else servers[0]), m.name
+        mmod = m.mod
+        # (B) shipped template
+        rets = returns_of(m)
+        tmpl_rets = [r for r in rets if isinstance(expand_expr(m, r.value, r), ast.Call) and
+                     norm(expand_expr(m, r.value, r).func) == 'CONTEXTUAL_ENV.render']
+        if tmpl_rets and len(tmpl_rets) == len(rets):
+            # the name may be a class attribute (``self._template_name``): it is read for every class that inherits
+            # the method
+            names = sorted(set(_template_name(repo, mmod, m, expand_expr(m, r.value, r), recv) for r in tmpl_rets for recv in servers))
+            sinks_seen |= set((id(m.node), n_) for n_ in names)
+            rep.ok('R09.c', fkey(m), 'renders shipped template(s) %s (escaping: R09.d)' % names, mmod, m.node)
+            continue
+        sinks_seen.add((id(m.node), None))
+
+        # (A) format with the escaped dict
+        def is_escaped_map(e, st):
+            return norm(expand_expr(m, e, st)) == 'self.to_escaped_dict()'
+
+        def is_escaped_field(e, st):
+            return isinstance(e, ast.Subscript) and isinstance(e.slice, ast.Constant) and is_escaped_map(e.value, st)
+        sinks, bad = [], []
+        for n_ in walk_body(m.node):
+            st = None
+            is_fmt = (isinstance(n_, ast.Call) and isinstance(n_.func, ast.Attribute) and n_.func.attr in ('format', 'format_map')) or \
+                (isinstance(n_, ast.BinOp) and isinstance(n_.op, ast.Mod)) or isinstance(n_, ast.JoinedStr)
+            if is_fmt and inside_constant(repo, m, n_):
+                # formatting of constants with constants (a template generated from a constant table of field
+                # names): template text, no field of the instance is interpolated here
                 continue
+            if isinstance(n_, ast.Call) and isinstance(n_.func, ast.Attribute) and n_.func.attr in ('format', 'format_map'):
+                sinks.append(n_)
+                st = stmt_of(mmod, n_)
+                if n_.func.attr == 'format_map':
+                    good = len(n_.args) == 1 and not n_.keywords and is_escaped_map(n_.args[0], st)
+                else:
+                    good = bool(n_.args or n_.keywords) and all(is_escaped_field(a, st) for a in n_.args) and \
+                        all(is_escaped_map(k_.value, st) if k_.arg is None else is_escaped_field(k_.value, st) for k_ in n_.keywords)
+                if not good:
+                    bad.append(n_)
+            elif isinstance(n_, ast.BinOp) and isinstance(n_.op, ast.Mod) and \
+                    not (isinstance(n_.left, ast.Constant) and not isinstance(n_.left.value, str)):
+                sinks.append(n_)
+                st = stmt_of(mmod, n_)
+                r = n_.right
+                good = is_escaped_map(r, st) or is_escaped_field(r, st) or \
+                    (isinstance(r, ast.Tuple) and r.elts and all(is_escaped_field(x, st) for x in r.elts))
+                if not good:
+                    bad.append(n_)
+            elif isinstance(n_, ast.JoinedStr) and any(isinstance(v, ast.FormattedValue) for v in n_.values):
+                sinks.append(n_)
+                st = stmt_of(mmod, n_)
+                if not all(is_escaped_field(v.value, st) for v in n_.values if isinstance(v, ast.FormattedValue)):
+                    bad.append(n_)
+        if not sinks:
+            raise AnalysisError('%s.%s: construction of the markup not recognised (no format / %% / f-string)' % (c.name, name))
+        ok = not bad
+        rep.check('R09.c', fkey(m), ok, 'markup is built by .format(**to_escaped_dict()) only' if ok else
+                  '%s.%s interpolates unescaped fields into markup: %s' % (c.name, name, [short(b) for b in bad]), mmod,
+                  (bad or [m.node])[0])
+        # no direct use of raw fields in the returned string
+        raw = [n_ for n_ in walk_body(m.node) if isinstance(n_, ast.Call) and norm(n_.func) == 'self.to_dict']
+        rep.check('R09.c', fkey(m, 'no raw dict'), not raw, 'the raw to_dict() is not used for markup' if not raw else
+                  '%s.%s uses the unescaped to_dict()' % (c.name, name), mmod, raw[0] if raw else m.node)
+        # the escaped mapping stays escaped: nothing is stored into it afterwards
+        evars = [s.targets[0].id for s in stmts_of(m.node) if isinstance(s, ast.Assign) and len(s.targets) == 1 and
+                 isinstance(s.targets[0], ast.Name) and norm(s.value) == 'self.to_escaped_dict()']
+        muts = [n_ for n_ in walk_body(m.node)
+                if (isinstance(n_, ast.Subscript) and isinstance(n_.ctx, (ast.Store, ast.Del)) and norm(n_.value) in evars) or
+                (isinstance(n_, ast.Call) and isinstance(n_.func, ast.Attribute) and norm(n_.func.value) in evars and
+                 n_.func.attr in ('update', 'setdefault', '__setitem__'))]
+        rep.check('R09.c', fkey(m, 'escaped mapping unmodified'), not muts, 'nothing is stored into the escaped mapping' if not muts else
+                  '%s.%s stores %s into the escaped mapping before interpolating it' % (c.name, name, short(muts[0], 60)), mmod,
+                  muts[0] if muts else m.node)
+    if len(sinks_seen) < 4:
+        raise AnalysisError('only %d to_html/to_xml renderings found (floor 4)' % len(sinks_seen))
 
-            # (A) format with the escaped dict
-            def is_escaped_map(e, st):
-                return norm(expand_expr(m, e, st)) == 'self.to_escaped_dict()'
 
-            def is_escaped_field(e, st):
-                return isinstance(e, ast.Subscript) and isinstance(e.slice, ast.Constant) and is_escaped_map(e.value, st)
-            sinks, bad = [], []
-            for n_ in walk_body(m.node):
-                st = None
-                is_fmt = (isinstance(n_, ast.Call) and isinstance(n_.func, ast.Attribute) and n_.func.attr in ('format', 'format_map')) or \
-                    (isinstance(n_, ast.BinOp) and isinstance(n_.op, ast.Mod)) or isinstance(n_, ast.JoinedStr)
-                if is_fmt and inside_constant(repo, m, n_):
-                    # formatting of constants with constants (a template generated from a constant table of field
-                    # names): template text, no field of the instance is interpolated here
+def unquoted_placeholders(text):
+    """Placeholders of a ``str.format`` / ``%`` template that stand inside a tag (between '<' and '>') outside quotes:
+    ``<a href={error_type}>``.  html_escape(x, True) makes a value safe as element content and inside a *quoted* attribute
+    value only; unquoted, a space in the value starts a new attribute.  Lexical scan of one constant piece of a template."""
+    out = []
+    in_tag, quote, i = False, None, 0
+    while i < len(text):
+        ch = text[i]
+        if not in_tag:
+            if ch == '<' and text[i + 1:i + 2] not in ('', ' ', '{', '%'):
+                in_tag, quote = True, None
+        elif quote is not None:
+            if ch == quote:
+                quote = None
+        elif ch in '"\'':
+            quote = ch
+        elif ch == '>':
+            in_tag = False
+        elif ch == '{' and text[i + 1:i + 2] != '{':
+            j = text.find('}', i)
+            if j > 0:
+                out.append(text[i:j + 1])
+                i = j
+        elif ch == '{':
+            i += 1
+        elif ch == '%' and text[i + 1:i + 2] in ('s', 'r', '('):
+            out.append(text[i:i + 2])
+        i += 1
+    return out
+
+
+def check_attribute_quoting(rep, repo, fam):
+    """Every constant piece of markup in the format-based to_html / to_xml of the family keeps its placeholders out of
+    unquoted attribute position."""
+    n = 0
+    for m, servers in markup_methods(repo, fam):
+        pieces, done = [], set()
+        for x in walk_body(m.node):
+            if not ((isinstance(x, ast.Constant) and isinstance(x.value, str)) or
+                    (isinstance(x, ast.Name) and isinstance(x.ctx, ast.Load) and x.id not in _param_names(m) and not _name_stores(m, x.id))):
+                continue
+            # the largest constant expression the piece belongs to (a template generated from constants is read as generated)
+            top, cur = None, x
+            while cur is not None and isinstance(cur, ast.expr):
+                if is_function_constant(repo, m, cur):
+                    top = cur
+                cur = m.mod.parents.get(cur)
+            if top is None or id(top) in done:
+                continue
+            done.add(id(top))
+            try:
+                v = fold_in_function(repo, m, top)
+            except Unfoldable:
+                continue
+            for t in ([v] if isinstance(v, str) else list(v) if isinstance(v, (list, tuple)) and all(isinstance(y, str) for y in v) else []):
+                pieces.append((top, t))
+        bad = [(x, ph) for x, t in pieces if '<' in t for ph in unquoted_placeholders(t)]
+        if any('<' in t for x, t in pieces):
+            n += 1
+            rep.check('R09.c', fkey(m, 'placeholders in attributes are quoted'), not bad, 'no placeholder stands in an unquoted attribute value' if not bad else
+                      '%s puts the placeholder %s into a tag outside quotes: an escaped value still ends the attribute at its first space' %
+                      (m.qualname, bad[0][1]), m.mod, bad[0][0] if bad else m.node)
+    if n < 2:
+        raise AnalysisError('markup templates of to_html / to_xml not found (%d)' % n)
+
+
+def check_xml_template(rep, repo, fam):
+    """"XML bodies are well formed" has one part that is a property of a constant: the template to_xml fills.  With every
+    placeholder replaced by plain text the folded template must parse as one XML element (escaped values are character data:
+    they cannot change that)."""
+    import string
+    import xml.etree.ElementTree as ET
+    n = 0
+    for m, servers in markup_methods(repo, fam):
+        if m.name != 'to_xml':
+            continue
+        for c in walk_body(m.node):
+            if not (isinstance(c, ast.Call) and isinstance(c.func, ast.Attribute) and c.func.attr in ('format', 'format_map')) or inside_constant(repo, m, c):
+                continue
+            tm = expand_expr(m, c.func.value, _use_stmt(m, c))
+            try:
+                text = fold_in_function(repo, m, tm)
+            except Unfoldable:
+                text = None
+            if not isinstance(text, str):
+                try:
+                    text = fold_in_function(repo, m, c.func.value)
+                except Unfoldable:
                     continue
-                if isinstance(n_, ast.Call) and isinstance(n_.func, ast.Attribute) and n_.func.attr in ('format', 'format_map'):
-                    sinks.append(n_)
-                    st = stmt_of(err, n_)
-                    if n_.func.attr == 'format_map':
-                        good = len(n_.args) == 1 and not n_.keywords and is_escaped_map(n_.args[0], st)
-                    else:
-                        good = bool(n_.args or n_.keywords) and all(is_escaped_field(a, st) for a in n_.args) and \
-                            all(is_escaped_map(k_.value, st) if k_.arg is None else is_escaped_field(k_.value, st) for k_ in n_.keywords)
-                    if not good:
-                        bad.append(n_)
-                elif isinstance(n_, ast.BinOp) and isinstance(n_.op, ast.Mod) and \
-                        not (isinstance(n_.left, ast.Constant) and not isinstance(n_.left.value, str)):
-                    sinks.append(n_)
-                    st = stmt_of(err, n_)
-                    r = n_.right
-                    good = is_escaped_map(r, st) or is_escaped_field(r, st) or \
-                        (isinstance(r, ast.Tuple) and r.elts and all(is_escaped_field(x, st) for x in r.elts))
-                    if not good:
-                        bad.append(n_)
-                elif isinstance(n_, ast.JoinedStr) and any(isinstance(v, ast.FormattedValue) for v in n_.values):
-                    sinks.append(n_)
-                    st = stmt_of(err, n_)
-                    if not all(is_escaped_field(v.value, st) for v in n_.values if isinstance(v, ast.FormattedValue)):
-                        bad.append(n_)
-            if not sinks:
-                raise AnalysisError('%s.%s: construction of the markup not recognised (no format / %% / f-string)' % (c.name, name))
-            ok = not bad
-            rep.check('R09.c', fkey(m), ok, 'markup is built by .format(**to_escaped_dict()) only' if ok else
-                      '%s.%s interpolates unescaped fields into markup: %s' % (c.name, name, [short(b) for b in bad]), err,
-                      (bad or [m.node])[0])
-            # no direct use of raw fields in the returned string
-            raw = [n_ for n_ in walk_body(m.node) if isinstance(n_, ast.Call) and norm(n_.func) == 'self.to_dict']
-            rep.check('R09.c', fkey(m, 'no raw dict'), not raw, 'the raw to_dict() is not used for markup' if not raw else
-                      '%s.%s uses the unescaped to_dict()' % (c.name, name), err, raw[0] if raw else m.node)
-            # the escaped mapping stays escaped: nothing is stored into it afterwards
-            evars = [s.targets[0].id for s in stmts_of(m.node) if isinstance(s, ast.Assign) and len(s.targets) == 1 and
-                     isinstance(s.targets[0], ast.Name) and norm(s.value) == 'self.to_escaped_dict()']
-            muts = [n_ for n_ in walk_body(m.node)
-                    if (isinstance(n_, ast.Subscript) and isinstance(n_.ctx, (ast.Store, ast.Del)) and norm(n_.value) in evars) or
-                    (isinstance(n_, ast.Call) and isinstance(n_.func, ast.Attribute) and norm(n_.func.value) in evars and
-                     n_.func.attr in ('update', 'setdefault', '__setitem__'))]
-            rep.check('R09.c', fkey(m, 'escaped mapping unmodified'), not muts, 'nothing is stored into the escaped mapping' if not muts else
-                      '%s.%s stores %s into the escaped mapping before interpolating it' % (c.name, name, short(muts[0], 60)), err,
-                      muts[0] if muts else m.node)
-    if n_sinks < 4:
-        raise AnalysisError('only %d to_html/to_xml methods found (floor 4)' % n_sinks)
+            if not isinstance(text, str):
+                continue
+            n += 1
+            try:
+                filled = ''.join(lit + ('x' if field is not None else '') for lit, field, spec, conv in string.Formatter().parse(text))
+                ET.fromstring(filled)
+                ok, why = True, ''
+            except (ValueError, ET.ParseError) as e:
+                ok, why = False, str(e)
+            rep.check('R09.c', fkey(m, 'template is one XML element'), ok, 'the XML template is well formed' if ok else
+                      'the template %s.to_xml fills is not a well-formed XML element (%s): every XML error body is rejected by an XML parser' %
+                      (m.cls.name if isinstance(m.cls, ClassInfo) else '?', why), m.mod, c)
+    if not n:
+        rep.decline('well-formedness of the XML template: the template of to_xml is not a constant of the source')
 
 
-def _template_name(repo, mod, fi, render_call):
-    """Folded first argument of CONTEXTUAL_ENV.render(name, ctx); ``self.attr`` is looked up on the class."""
+def _template_name(repo, mod, fi, render_call, recv=None):
+    """Folded first argument of CONTEXTUAL_ENV.render(name, ctx); ``self.attr`` is looked up on the class of the
+    receiver ``recv`` (default: the class defining the method) through its bases -- a class attribute that no method
+    of those classes ever stores on the instance."""
     a = argn(render_call, 'name', 0)
     if a is None:
         raise AnalysisError('%s: template name of %s not found' % (fi.qualname, short(render_call, 60)))
     v = repo.try_fold(a, mod)
+    recv = recv if recv is not None else fi.cls
     if v is None and isinstance(a, ast.Attribute) and isinstance(a.value, ast.Name) and a.value.id in ('self', 'cls') and \
-            isinstance(fi.cls, ClassInfo):
-        dc, val = repo.class_attr(fi.cls, a.attr)
-        if val is not None and not isinstance(val, (ast.FunctionDef, ast.AsyncFunctionDef)):
+            isinstance(recv, ClassInfo):
+        dc, val = repo.class_attr(recv, a.attr)
+        if val is not None and not isinstance(val, (ast.FunctionDef, ast.AsyncFunctionDef)) and not _instance_attr_written(repo, recv, a.attr):
             v = repo.try_fold(val, dc.mod)
     if not isinstance(v, str):
-        raise AnalysisError('%s: template name %s is not a constant' % (fi.qualname, short(a, 60)))
+        raise AnalysisError('%s: template name %s is not a constant%s' % (fi.qualname, short(a, 60), ' of %s' % recv.name if isinstance(recv, ClassInfo) else ''))
     return v
+
+
+def _instance_attr_written(repo, cls, attr):
+    """Does a method of the class or of one of its bases in the analysed tree store the attribute (on any object: a
+    write through an alias of self counts), or call setattr / touch __dict__?"""
+    for k in repo.mro(cls):
+        if not isinstance(k, ClassInfo) or k.mod.external:
+            continue
+        for m in k.methods.values():
+            for n in ast.walk(m.node):
+                if isinstance(n, ast.Attribute) and isinstance(n.ctx, (ast.Store, ast.Del)) and n.attr == attr:
+                    return True
+                if isinstance(n, ast.Call) and isinstance(n.func, ast.Name) and n.func.id in ('setattr', 'delattr') and \
+                        not (len(n.args) >= 2 and isinstance(n.args[1], ast.Constant) and n.args[1].value != attr):
+                    return True
+    return False
 
 
 # ---------------------------------------------------------------------------------------------- R09.b helpers
@@ -775,8 +959,9 @@ def _is_table(e):
     return isinstance(e, ast.Name) and e.id == TABLE
 
 
-def check_adapt(rep, repo, err, base, msm):
-    ad = base.methods['adapt']
+def check_adapt(rep, repo, err, base, msm, ad=None):
+    """``ad``: the adapt() to analyse -- the base class' or an override in a class of the family."""
+    ad = base.methods['adapt'] if ad is None else ad
     ps = ad.params()
     if len(ps) < 2:
         raise AnalysisError('adapt: the mimetype parameter was not found')
@@ -914,6 +1099,13 @@ def check_adapt(rep, repo, err, base, msm):
     else:
         a0 = argn(cv, 'mimetype', 0) if isinstance(cv, ast.Call) and call_tail(cv) == 'get_content_type' else None
         ok_ct = isinstance(a0, ast.Name) and a0.id == mp
+        if ok_ct:
+            # ... and the charset announced is the one the response encodes its body with
+            a1 = argn(cv, 'charset', 1)
+            ok_cs = a1 is not None and norm(a1) == '%s.charset' % ps[0] and not _self_attr_stores(ad, 'charset')
+            rep.check('R09.b', fkey(ad, 'charset of the header'), ok_cs, 'the Content-Type names the charset the body is encoded with (self.charset)' if ok_cs else
+                      'the Content-Type is built with the charset %s, the body is encoded with self.charset: a non-ASCII detail is announced in '
+                      'one encoding and sent in another' % (short(a1, 30) if a1 is not None else 'left to a default'), ad.mod, ct[0][0])
     dn, cn = acfg.nodes_of(data[0][0]), acfg.nodes_of(ct[0][0])
     defs = acfg.nodes_of(lookup) + acfg.nodes_of_all([s for nm in reb for s, v in reb[nm]])
     ok = ok_body and ok_ct and acfg.must_pass(defs, acfg.entry, dn + cn) and acfg.must_pass(dn, acfg.entry, acfg.exit, normal_only=True) and \
@@ -946,6 +1138,21 @@ def negotiated_over_table(repo, err, mod, fi, expr, use_stmt, expanded=False):
             and recv.value.id in fi.params() and _mod_of(repo, recv.value, mod) is mod and _fn_of(repo, recv.value, fi) is fi):
         return False
     table = argn(e, 'matches', 0)
+    # nothing acceptable: the answer must be None (adapt() then falls back to plain text) or a plain-text type of the table
+    dflt = argn(e, 'default', 1)
+    if dflt is not None and not (isinstance(dflt, ast.Constant) and dflt.value is None):
+        try:
+            dv = repo.fold(dflt, _mod_of(repo, dflt, mod))
+            msm_ = err.const(TABLE)
+        except Exception:
+            return False
+        if not (isinstance(dv, str) and isinstance(msm_, dict) and msm_.get(dv) == 'text'):
+            return False
+        owner_d = _fn_of(repo, dflt, fi)
+        if owner_d is not None and any(isinstance(n_, ast.Name) and (n_.id in _param_names(owner_d) or _name_stores(owner_d, n_.id)) for n_ in ast.walk(dflt)):
+            return False
+    if any(k_.arg is None for k_ in e.keywords) or any(isinstance(a_, ast.Starred) for a_ in e.args):
+        return False
     # the same keys in the same order: list(T), tuple(T), T.keys(), iter(T)
     for _ in range(2):
         if isinstance(table, ast.Call) and isinstance(table.func, ast.Name) and table.func.id in ('list', 'tuple', 'iter') and \
@@ -971,16 +1178,21 @@ def registered_templates(repo, ce):
     table>`` counts once per row."""
     top_calls = [n_.value for n_ in ce.tree.body if isinstance(n_, ast.Expr) and isinstance(n_.value, ast.Call)
                  and isinstance(n_.value.func, ast.Name)]
-    scopes_ = [(None, ce.tree.body)]
+    scopes_ = [(None, ce.tree.body, {})]
     called = []
     for c in top_calls:
         fi = ce.functions.get(c.func.id)
         if fi is not None and fi.cls is None:
             called.append((fi, c))
-            scopes_.append((fi, fi.node.body))
+            # the function's parameters stand for the argument expressions of this call (evaluated at module level)
+            binding = call_binding(fi, c) if _param_names(fi) else {}
+            if binding is None:
+                raise AnalysisError('%s(...) at module level: the arguments cannot be matched with the parameters' % fi.qualname)
+            scopes_.append((fi, fi.node.body, dict((p_, v[1] if isinstance(v, tuple) else v) for p_, v in binding.items())))
     out = {}
     n_calls = 0
-    for fi, body in scopes_:
+    counted = set()
+    for fi, body, binding in scopes_:
         todo = list(body)
         nodes = []
         while todo:
@@ -992,7 +1204,9 @@ def registered_templates(repo, ce):
         for c in nodes:
             if not (isinstance(c, ast.Call) and norm(c.func) == 'CONTEXTUAL_ENV.register_source'):
                 continue
-            n_calls += 1
+            if id(c) not in counted:        # a function called twice at module level: its calls are counted once
+                counted.add(id(c))
+                n_calls += 1
             a_name, a_src = argn(c, 'name', 0), argn(c, 'source', 1)
             if a_name is None or a_src is None:
                 raise AnalysisError('register_source call %s: name / source argument not found' % short(c, 60))
@@ -1000,7 +1214,7 @@ def registered_templates(repo, ce):
             cur = ce.parents.get(c)
             while cur is not None and not isinstance(cur, (ast.FunctionDef, ast.AsyncFunctionDef, ast.Module)):
                 if isinstance(cur, (ast.For, ast.AsyncFor)) and (names_stored(cur.target) & (_names(a_name) | _names(a_src))):
-                    rows = _loop_rows(repo, ce, fi, cur)
+                    rows = _loop_rows(repo, ce, fi, cur, binding)
                     break
                 cur = ce.parents.get(cur)
             for env in rows:
@@ -1009,6 +1223,9 @@ def registered_templates(repo, ce):
                 if fi is not None:
                     nm = expand_expr(fi, nm, stmt_of(ce, c)) if not env else nm
                     sx = expand_expr(fi, sx, stmt_of(ce, c)) if not env else sx
+                    if not env and binding:
+                        # a parameter of the registering function, never re-bound in it (call_binding): the argument
+                        nm, sx = _subst(nm, binding), _subst(sx, binding)
                 name = repo.try_fold(nm, ce)
                 if not isinstance(name, str):
                     raise AnalysisError('register_source: template name %s is not a constant' % short(nm, 60))
@@ -1032,15 +1249,20 @@ def _subst(e, env):
     return S().visit(copy.deepcopy(e))
 
 
-def _loop_rows(repo, mod, fi, loop):
+def _loop_rows(repo, mod, fi, loop, binding=None):
     """[{loop variable: element expression}] for a ``for`` over a literal list / tuple of tuples (or over the items of a
-    literal dict), written in place, named by a single-assignment local or by a module constant."""
+    literal dict), written in place, named by a single-assignment local or by a module constant -- or handed to the
+    registering function as the argument of its one module-level call (``binding``: parameter -> argument)."""
     it = loop.iter
     if fi is not None:
         it = expand_expr(fi, it, loop)
+    from_caller = False
+    if fi is not None and binding and isinstance(it, ast.Name) and it.id in binding:
+        it, from_caller = binding[it.id], True     # evaluated where the call is written: at module level
+
     def module_const(e):
         # a module-level name bound once to a display
-        if isinstance(e, ast.Name) and (fi is None or not (e.id in _param_names(fi) or _name_stores(fi, e.id))):
+        if isinstance(e, ast.Name) and (fi is None or from_caller or not (e.id in _param_names(fi) or _name_stores(fi, e.id))):
             vals = [v for v in mod.assigns.get(e.id, [])]
             if len(vals) == 1 and isinstance(vals[0], ast.expr):
                 return vals[0]
@@ -1096,9 +1318,14 @@ def run(rep):
                'field; R09.d debug templates auto-escape; R09.e JSON carries the four fields')
     rep.decline('well-formedness of produced XML/HTML bytes, werkzeug Accept negotiation, JSON parseability')
     rep.assume('html.escape(s, True) escapes & < > " \' ; ashes filter semantics as read from the pinned source')
-    rep.rule('R09.a', 'class codes vs http.HTTPStatus; hierarchy; uniqueness; status plumbing (def-use order of self.code and of the fields rendered in the constructor)')
-    rep.rule('R09.b', 'MIME_SUPPORT_MAP exhaustiveness; one (format, mimetype) pair feeds body and header')
-    rep.rule('R09.c', 'taint: instance fields reach HTML/XML templates only through html_escape(x, True)')
+    rep.assume('xml.etree.ElementTree accepts exactly the well-formed documents (used on the constant XML template only)')
+    rep.rule('R09.a', 'class codes vs http.HTTPStatus; hierarchy; uniqueness; status plumbing (def-use order of self.code and of the fields rendered in the '
+                      'constructor); handler slots and uncaught_to_response carry the status of their situation; constructors of error types hand on '
+                      'and keep what they are given; class-level defaults are never written')
+    rep.rule('R09.b', 'MIME_SUPPORT_MAP exhaustiveness and constancy; one (format, mimetype) pair feeds body and header (charset = self.charset), also in '
+                      'overrides; negotiation over the table with a plain-text / None default in every render_error')
+    rep.rule('R09.c', 'taint: instance fields reach HTML/XML templates only through html_escape(x, True), in the serialisers each class resolves to; '
+                      'placeholders stay out of unquoted attribute position; the XML template is one well-formed element')
     rep.rule('R09.d', 'every reference of the shipped debug templates is escaped')
     rep.rule('R09.e', 'to_json / to_dict field agreement')
 
@@ -1289,6 +1516,10 @@ def rule_a(rep, repo, err, base, fam):
     rep.check('R09.a', fkey(init, 'default body'), ok, 'the default body is the plain-text rendering, labelled DEFAULT_MIME' if ok else
               'the default body / mimetype pair of HTTPException changed', err, init.node)
     check_constructor_order(rep, repo, err, base, init, icfg)
+    _guarded(rep, check_handler_slots, rep, repo, err, base)
+    _guarded(rep, check_uncaught_type, rep, repo, err)
+    _guarded(rep, check_class_defaults_constant, rep, repo, err, fam)
+    _guarded(rep, check_constructor_chain, rep, repo, err, base, fam)
 
 
 def adapt_site(repo, fi, ename):
@@ -1361,6 +1592,288 @@ def renderer_adapts_negotiated(repo, err, mod_, fi, ename):
     return True
 
 
+def check_adapt_override(rep, repo, err, base, msm, m):
+    """An error type's own adapt(): it either defers to the inherited one (same requested type, on every path, and sets
+    neither body nor Content-Type itself) or it pairs body and header from the table like the base class does."""
+    ps = m.params()
+    me = ps[0] if ps else 'self'
+    bases = [norm(b) for b in m.cls.node.bases] if isinstance(m.cls, ClassInfo) else []
+    sup = [x for x in walk_body(m.node) if isinstance(x, ast.Call) and isinstance(x.func, ast.Attribute) and x.func.attr == 'adapt' and
+           ((isinstance(x.func.value, ast.Call) and norm(x.func.value.func) == 'super') or norm(x.func.value) in bases)]
+    sets = [n for n in walk_body(m.node)
+            if (isinstance(n, ast.Attribute) and isinstance(n.ctx, (ast.Store, ast.Del)) and norm(n.value) == me and n.attr in ('data', 'response', 'content_type', 'mimetype', 'headers'))
+            or (isinstance(n, ast.Subscript) and isinstance(n.ctx, (ast.Store, ast.Del)) and norm(n.value) == me + '.headers')
+            or (isinstance(n, ast.Call) and norm(n.func) in (me + '.set_data', me + '.headers.set', me + '.headers.add', me + '.headers.update', me + '.headers.__setitem__'))]
+    looks = [n for n in walk_body(m.node) if _is_table(n)]
+    if sup and not sets:
+        mcfg = cfg_of(m)
+        args = list(sup[0].args)
+        if not (isinstance(sup[0].func.value, ast.Call) and norm(sup[0].func.value.func) == 'super'):
+            args = args[1:]
+        a0 = args[0] if args else kwarg(sup[0], 'mimetype')
+        ok = len(sup) == 1 and len(ps) >= 2 and isinstance(a0, ast.Name) and a0.id == ps[1] and not _name_stores(m, ps[1]) and \
+            mcfg.must_pass(mcfg.nodes_of(stmt_of(m.mod, sup[0])), mcfg.entry, mcfg.exit, normal_only=True)
+        rep.check('R09.b', fkey(m, 'defers to the inherited adapt'), ok, '%s defers to the inherited adapt() for the requested type' % m.qualname if ok else
+                  '%s does not hand the requested type to the inherited adapt() on every path: body and Content-Type of this error type are not '
+                  'always paired from the format table' % m.qualname, m.mod, sup[0])
+    elif looks:
+        check_adapt(rep, repo, err, base, msm, m)
+    else:
+        rep.fail('R09.b', fkey(m, 'body and header from one pair'),
+                 '%s sets the body / headers of this error type without consulting %s: the Content-Type need not agree with the body' % (m.qualname, TABLE), m.mod, m.node)
+
+
+_TABLE_MUTATORS = ('update', 'pop', 'popitem', 'clear', 'setdefault', '__setitem__', '__delitem__')
+
+
+def check_table_constant(rep, repo, err):
+    """The format table the checks fold from its definition is the table the code sees at every request: no module of the
+    tree stores into it, deletes from it, calls a mutating method on it or re-binds it after import."""
+    bad = []
+    for m in repo.all_internal_modules():
+        if m is not err:
+            k, m_, obj = repo.resolve(m, TABLE)
+            if m_ is not err:
+                continue
+        for n in ast.walk(m.tree):
+            hit = None
+            if isinstance(n, ast.Subscript) and isinstance(n.ctx, (ast.Store, ast.Del)) and _is_table(n.value):
+                hit = n
+            elif isinstance(n, ast.Call) and isinstance(n.func, ast.Attribute) and n.func.attr in _TABLE_MUTATORS and _is_table(n.func.value):
+                hit = n
+            elif isinstance(n, ast.Global) and TABLE in n.names:
+                hit = n
+            elif isinstance(n, ast.Attribute) and isinstance(n.ctx, (ast.Store, ast.Del)) and n.attr == TABLE:
+                hit = n
+            if hit is None:
+                continue
+            fn = m.enclosing_function(hit)
+            fi = m.func_of_node(fn) if fn is not None and not isinstance(fn, ast.Lambda) else None
+            if fi is not None and not isinstance(hit, ast.Global) and (TABLE in _param_names(fi) or _name_stores(fi, TABLE)):
+                continue        # a local / parameter of the same name
+            bad.append((m, hit))
+    rep.check('R09.b', '%s::%s is constant' % (ERR, TABLE), not bad, 'nothing modifies the format table after its definition' if not bad else
+              '%s is modified at run time (%s): what one request adds to / removes from the table decides the formats offered to and chosen '
+              'for every later request' % (TABLE, short(bad[0][1], 60)), bad[0][0] if bad else err, bad[0][1] if bad else None)
+
+
+_SLOTS = (('not_found_type', 404), ('method_not_allowed_type', 405), ('server_error_type', 500))
+
+
+def check_handler_slots(rep, repo, err, base):
+    """The error types an error handler creates for "no route", "wrong method" and "uncaught exception" carry the status
+    of that situation: in ErrorHandler and every subclass, each slot holds a class of the family whose code is the slot's."""
+    eh = err.classes.get('ErrorHandler')
+    if eh is None:
+        raise AnalysisError('anchor vanished: class %s::ErrorHandler' % ERR)
+    n = 0
+    for c in [eh] + repo.subclasses(eh):
+        for slot, want in _SLOTS:
+            if slot not in c.class_attrs and c is not eh:
+                continue
+            val = c.class_attrs.get(slot)
+            if val is None:
+                raise AnalysisError('%s.%s: the slot is not a plain class attribute' % (c.name, slot))
+            if _instance_attr_written(repo, c, slot):
+                raise AnalysisError('%s.%s is also written on instances: not followed' % (c.name, slot))
+            r = repo.resolve_class(c.mod, val)
+            code = None
+            if isinstance(r, ClassInfo) and (r is base or repo.is_subclass(r, base)):
+                dc, cv = repo.class_attr(r, 'code')
+                code = repo.try_fold(cv, dc.mod) if cv is not None and not isinstance(cv, (ast.FunctionDef, ast.AsyncFunctionDef)) else None
+            n += 1
+            ok = code == want
+            rep.check('R09.a', '%s::%s.%s' % (c.mod.name, c.name, slot), ok, '%s.%s = %s (%s)' % (c.name, slot, norm(val), code) if ok else
+                      '%s.%s = %s, which is not an error type with status %d (%s): that situation is answered with another status' %
+                      (c.name, slot, norm(val), want, 'code %s' % code if code is not None else 'not a class of the HTTPException family'), c.mod, val)
+    if n < 3:
+        raise AnalysisError('ErrorHandler: only %d of the slots not_found_type / method_not_allowed_type / server_error_type found' % n)
+
+
+def check_uncaught_type(rep, repo, err):
+    """An uncaught exception is answered with the handler's server-error type (status 500, slot checked above): every
+    uncaught_to_response of the ErrorHandler family returns an instance made from a ``server_error_type`` slot, or re-raises."""
+    eh = err.classes.get('ErrorHandler')
+    if eh is None:
+        raise AnalysisError('anchor vanished: class %s::ErrorHandler' % ERR)
+    n = 0
+    for c in [eh] + repo.subclasses(eh):
+        m = c.methods.get('uncaught_to_response')
+        if m is None:
+            continue
+        n += 1
+        bad = []
+        for r in returns_of(m):
+            if r.value is None:
+                bad.append(r)
+                continue
+            for f_, e in value_leaves(repo, m, r.value):
+                fn = expand_expr(f_, e.func, _use_stmt(f_, e)) if isinstance(e, ast.Call) else None
+                if not (fn is not None and isinstance(fn, ast.Attribute) and fn.attr == 'server_error_type'):
+                    bad.append(e)
+        ok = not bad and not _falls_off(m)
+        rep.check('R09.a', fkey(m, 'answers with the server error type'), ok, '%s answers with an instance of the handler\'s server_error_type' % m.qualname if ok else
+                  '%s can answer an uncaught exception with %s instead of an instance of the handler\'s server_error_type' %
+                  (m.qualname, short(bad[0], 50) if bad else 'None (falls off the end)'), c.mod, bad[0] if bad else m.node)
+    if n < 2:
+        raise AnalysisError('uncaught_to_response: only %d definition(s) found in the ErrorHandler family' % n)
+
+
+_CLASS_DEFAULTS = ('code', 'message', 'detail', 'error_type')
+
+
+def check_class_defaults_constant(rep, repo, err, fam):
+    """The class-level code / message / detail of the error types are what the status table (R09.a) and every instance
+    without an override rely on: no code of the errors module writes them on a class (``Cls.detail = ...``,
+    ``type(self).detail += ...``, ``self.__class__.code = ...``, ``cls.message = ...``) -- such a write outlives the request."""
+    names = set(c.name for c in fam)
+    bad = []
+    for n in ast.walk(err.tree):
+        if not (isinstance(n, ast.Attribute) and isinstance(n.ctx, (ast.Store, ast.Del)) and n.attr in _CLASS_DEFAULTS):
+            continue
+        r = n.value
+        on_class = (isinstance(r, ast.Name) and (r.id in names or r.id == 'cls')) or \
+            (isinstance(r, ast.Call) and isinstance(r.func, ast.Name) and r.func.id == 'type' and len(r.args) == 1) or \
+            (isinstance(r, ast.Attribute) and r.attr == '__class__')
+        if on_class:
+            fn = err.enclosing_function(n)
+            fi = err.func_of_node(fn) if fn is not None and not isinstance(fn, ast.Lambda) else None
+            if isinstance(r, ast.Name) and r.id != 'cls' and fi is not None and (r.id in _param_names(fi) or _name_stores(fi, r.id)):
+                continue
+            bad.append(n)
+    for n in ast.walk(err.tree):
+        if isinstance(n, ast.Call) and isinstance(n.func, ast.Name) and n.func.id == 'setattr' and len(n.args) >= 2 and \
+                (not isinstance(n.args[1], ast.Constant) or n.args[1].value in _CLASS_DEFAULTS):
+            r = n.args[0]
+            if (isinstance(r, ast.Name) and (r.id in names or r.id == 'cls')) or (isinstance(r, ast.Call) and norm(r.func) == 'type') or \
+                    (isinstance(r, ast.Attribute) and r.attr == '__class__'):
+                bad.append(n)
+    rep.check('R09.a', '%s::class defaults are constant' % ERR, not bad, 'no code writes code / message / detail / error_type on an error class' if not bad else
+              'a class-level default of an error type is written at run time (%s): what one request stores shows up in the status / body of '
+              'every later error of that type' % short(err.parents.get(bad[0], bad[0]), 60), err, bad[0] if bad else None)
+
+
+def _base_popped_keys(base_init):
+    """Keys HTTPException.__init__ takes out of its **kwargs (``kwargs.pop('<key>', ...)``)."""
+    kwn = base_init.node.args.kwarg.arg if base_init.node.args.kwarg else None
+    out = set()
+    for n in walk_body(base_init.node):
+        if isinstance(n, ast.Call) and isinstance(n.func, ast.Attribute) and n.func.attr in ('pop', 'get') and norm(n.func.value) == kwn and n.args and \
+                isinstance(n.args[0], ast.Constant) and isinstance(n.args[0].value, str):
+            out.add(n.args[0].value)
+    return out
+
+
+def check_constructor_chain(rep, repo, err, base, fam):
+    """"... or the code given to the instance": a constructor of an error type hands what it was given on to the next
+    constructor -- its **kwargs as they came (own keys may be taken out, none of the keys HTTPException.__init__ reads), its
+    *args, its ``detail`` -- exactly once, on every path, so that code / message / detail / error_type / mimetype given to any
+    error type reach the instance."""
+    binit = base.methods['__init__']
+    std = _base_popped_keys(binit) | set(x.arg for x in binit.node.args.args[1:] + binit.node.args.kwonlyargs)
+    if len(std) < 5:
+        raise AnalysisError('HTTPException.__init__: the keys it reads from **kwargs were not found')
+    for c in fam:
+        m = c.methods.get('__init__')
+        if c is base or m is None:
+            continue
+        a = m.node.args
+        me = m.params()[0] if m.params() else 'self'
+        bases = [norm(b) for b in c.node.bases]
+        sup = [x for x in walk_body(m.node) if isinstance(x, ast.Call) and isinstance(x.func, ast.Attribute) and x.func.attr == '__init__' and
+               ((isinstance(x.func.value, ast.Call) and norm(x.func.value.func) == 'super') or norm(x.func.value) in bases)]
+        mcfg = cfg_of(m)
+        why = None
+        if len(sup) != 1:
+            why = 'calls the next constructor %d times' % len(sup)
+        elif not mcfg.must_pass(mcfg.nodes_of(stmt_of(c.mod, sup[0])), mcfg.entry, mcfg.exit, normal_only=True):
+            why = 'does not call the next constructor on every path'
+        else:
+            call = sup[0]
+            args = list(call.args)
+            if not (isinstance(call.func.value, ast.Call) and norm(call.func.value.func) == 'super'):
+                args = args[1:]     # Base.__init__(self, ...)
+            kwn, van = (a.kwarg.arg if a.kwarg else None), (a.vararg.arg if a.vararg else None)
+            if kwn is not None:
+                if not any(k.arg is None and isinstance(k.value, ast.Name) and k.value.id == kwn for k in call.keywords) or _name_stores(m, kwn):
+                    why = 'does not pass its **%s on' % kwn
+                else:
+                    def handed_on(pop_call, key):
+                        """``v = kw.pop('<key>', ...)`` whose value goes to the next constructor under the same name (or as the
+                        leading positional argument that ``detail`` is)"""
+                        par = c.mod.parents.get(pop_call)
+                        if not (isinstance(par, ast.Assign) and par.value is pop_call and len(par.targets) == 1 and isinstance(par.targets[0], ast.Name)):
+                            return False
+                        v = par.targets[0].id
+                        if len(_name_stores(m, v)) != 1:
+                            return False
+                        return any(k.arg == key and isinstance(k.value, ast.Name) and k.value.id == v for k in call.keywords) or \
+                            (key == 'detail' and args and isinstance(args[0], ast.Name) and args[0].id == v)
+                    for n in walk_body(m.node):
+                        key = None
+                        if isinstance(n, ast.Call) and isinstance(n.func, ast.Attribute) and norm(n.func.value) == kwn:
+                            if n.func.attr in ('pop', 'setdefault', '__setitem__', '__delitem__') and n.args:
+                                key = n.args[0].value if isinstance(n.args[0], ast.Constant) else '<computed>'
+                                if n.func.attr == 'pop' and isinstance(key, str) and handed_on(n, key):
+                                    key = None
+                            elif n.func.attr in ('clear', 'popitem'):
+                                key = '<any>'
+                            elif n.func.attr == 'update':
+                                keys = [k.arg for k in n.keywords] + [k_.value if isinstance(k_, ast.Constant) else None
+                                                                     for a_ in n.args if isinstance(a_, ast.Dict) for k_ in a_.keys]
+                                if any(not isinstance(a_, ast.Dict) for a_ in n.args):
+                                    keys.append(None)
+                                bad = [k for k in keys if k is None or k in std]
+                                key = (bad[0] or '<computed>') if bad else None
+                        elif isinstance(n, ast.Subscript) and isinstance(n.ctx, (ast.Store, ast.Del)) and norm(n.value) == kwn:
+                            key = n.slice.value if isinstance(n.slice, ast.Constant) else '<computed>'
+                        if key is not None and (key in std or key in ('<computed>', '<any>')):
+                            why = 'takes %r out of / overwrites it in **%s before the next constructor sees it' % (key, kwn)
+                # explicit keywords of the call that shadow what the caller gave
+                def passes_given(k):
+                    if not isinstance(k.value, ast.Name):
+                        return False
+                    if k.value.id == k.arg and k.arg in _param_names(m):
+                        return True
+                    src = local_value(m, k.value.id)
+                    return isinstance(src, ast.Call) and isinstance(src.func, ast.Attribute) and src.func.attr == 'pop' and norm(src.func.value) == kwn and \
+                        bool(src.args) and isinstance(src.args[0], ast.Constant) and src.args[0].value == k.arg
+                fixed = [k.arg for k in call.keywords if k.arg in std and not passes_given(k)]
+                if why is None and fixed:
+                    why = 'passes a fixed %s= to the next constructor' % fixed[0]
+            if why is None and van is not None and not any(isinstance(x, ast.Starred) and isinstance(x.value, ast.Name) and x.value.id == van for x in args):
+                why = 'does not pass its *%s on' % van
+            named = [x.arg for x in a.posonlyargs + a.args + a.kwonlyargs][1:]
+            for pname in named:
+                if why is None and pname in std:
+                    passed = any(isinstance(x, ast.Name) and x.id == pname for x in args) or \
+                        any(k.arg == pname and isinstance(k.value, ast.Name) and k.value.id == pname for k in call.keywords)
+                    if not passed or _name_stores(m, pname):
+                        why = 'does not pass its %s parameter on (unchanged)' % pname
+        if len(sup) == 1:
+            # ... and what was given stays: once the next constructor has stored code / message / detail / error_type, this one
+            # writes such a field only where it is known to be unset (``self.error_type is None``), never over a given value
+            sst = stmt_of(c.mod, sup[0])
+            later = mcfg.reach(mcfg.nodes_of(sst), include_src=False)
+            over = []
+            for attr, node in _self_attr_stores(m):
+                if attr is not None and attr not in _CLASS_DEFAULTS:
+                    continue
+                st = stmt_of(c.mod, node)
+                if st is sst or not (set(mcfg.nodes_of(st)) & later):
+                    continue
+                if attr is None or not implies_absent(conds(m, st), '%s.%s' % (me, attr)):
+                    over.append((attr or '<computed>', st))
+            rep.check('R09.a', fkey(m, 'keeps what it was given'), not over, '%s.__init__ leaves the fields the next constructor stored alone (or fills unset ones)' % c.name if not over else
+                      '%s.__init__ writes self.%s after the next constructor has stored it, also when the caller gave one: the %s given to the '
+                      'instance is replaced in status / body' % (c.name, over[0][0], over[0][0]), c.mod, over[0][1] if over else m.node)
+        ok = why is None
+        rep.check('R09.a', fkey(m, 'hands its arguments to the next constructor'), ok,
+                  '%s.__init__ passes its arguments on to the next constructor' % c.name if ok else
+                  '%s.__init__ %s: a code / message / detail / error_type / mimetype given to this error type does not reach the instance' % (c.name, why),
+                  c.mod, sup[0] if sup else m.node)
+
+
 def rule_b(rep, repo, err, app, base):
     try:
         msm = err.const(TABLE)
@@ -1377,7 +1890,22 @@ def rule_b(rep, repo, err, app, base):
     rep.check('R09.b', '%s::DEFAULT_MIME' % ERR, dm in msm and msm[dm] == 'text', 'DEFAULT_MIME %s is a supported type served as text' % dm if dm in msm and msm.get(dm) == 'text' else
               'DEFAULT_MIME %r is not a supported plain-text type' % dm, err)
     _guarded(rep, check_adapt, rep, repo, err, base, msm)
-    for mod_, fi in ((err, err.func('ErrorHandler.render_error')), (app, app.func('default_render_error'))):
+    fam = [base] + repo.subclasses(base, [err])
+    for m, servers in family_methods(repo, fam):
+        # an adapt() of its own replaces the pairing of body and header for that error type: it is held to the same rule
+        if m.name == 'adapt' and m is not base.methods['adapt']:
+            _guarded(rep, check_adapt_override, rep, repo, err, base, msm, m)
+    check_table_constant(rep, repo, err)
+    renderers = [(err, err.func('ErrorHandler.render_error')), (app, app.func('default_render_error'))]
+    eh = err.classes.get('ErrorHandler')
+    if eh is not None:
+        for c in repo.subclasses(eh):
+            m = c.methods.get('render_error')
+            if m is not None and not any(m is fi_ for mod__, fi_ in renderers):
+                renderers.append((c.mod, m))
+    for mod_, fi in renderers:
+        if '_error' not in fi.params():
+            raise AnalysisError('%s: the _error parameter was not found' % fi.qualname)
         ok = renderer_adapts_negotiated(repo, err, mod_, fi, '_error')
         rep.check('R09.b', fkey(fi), bool(ok), 'negotiates over MIME_SUPPORT_MAP, adapts the error to the winner and returns it' if ok else
                   '%s does not negotiate over MIME_SUPPORT_MAP / adapt / return the same error' % fi.qualname, mod_, fi.node)
@@ -1398,7 +1926,13 @@ def rule_c(rep, repo, err, base, fam):
         (k == 'func' and he.name == 'escape' and he.mod.name in ('html', 'cgi'))
     rep.check('R09.c', '%s::html_escape' % ERR, ok, 'html_escape is the standard library\'s html.escape' if ok else 'html_escape resolves to %s' % (he,), err)
     _guarded(rep, check_escaped_dict, rep, repo, err, base)
+    for m, servers in family_methods(repo, fam):
+        # an error type with a to_escaped_dict() of its own feeds the inherited to_html / to_xml: same obligation
+        if m.name == 'to_escaped_dict' and m is not base.methods['to_escaped_dict']:
+            _guarded(rep, check_escaped_dict, rep, repo, err, base, m)
     _guarded(rep, check_markup_sinks, rep, repo, err, fam)
+    _guarded(rep, check_attribute_quoting, rep, repo, fam)
+    _guarded(rep, check_xml_template, rep, repo, fam)
     if check_template_constancy(rep, 'R09.c') < 3:
         raise AnalysisError('format sinks in the to_* serialisers not found')
     check_escape_total(rep, 'R09.c')
@@ -1414,11 +1948,11 @@ def rule_d(rep, repo, err, fam):
     rep.check('R09.d', 'clastic._contextual_errors::_register_templates()', n_calls == total, 'templates are registered at import' if n_calls == total else
               '%d of %d register_source calls are in code the module never runs at import' % (total - n_calls, total), ce)
     used = set()
-    for c in fam:
-        for m in c.methods.values():
-            for cl in walk_body(m.node):
-                if isinstance(cl, ast.Call) and norm(cl.func) == 'CONTEXTUAL_ENV.render':
-                    used.add(_template_name(repo, err, m, cl))
+    for m, servers in family_methods(repo, fam):
+        for cl in walk_body(m.node):
+            if isinstance(cl, ast.Call) and norm(cl.func) == 'CONTEXTUAL_ENV.render':
+                for recv in servers:
+                    used.add(_template_name(repo, m.mod, m, cl, recv))
     for name in sorted(used):
         rep.check('R09.d', 'clastic._contextual_errors::registered %s' % name, name in registered, 'template %s is registered' % name if name in registered else
                   'template %r is rendered but never registered' % name, ce)
